@@ -218,6 +218,137 @@ def job_names(_arg):
     return rep
 
 
+# ------------------------------------------------------------------ checkout / build tasks (valjean.cosette.code)
+TOOL = """#!/bin/sh
+# stand-in for git / cmake: journals its invocation, writes to both streams, ends as the plan says
+n=$(cat "$VF_J/count" 2>/dev/null || echo 0)
+echo "$n $*" >> "$VF_J/journal"
+echo $((n + 1)) > "$VF_J/count"
+echo "out$n"
+echo "err$n" >&2
+code=$(sed -n "$((n + 1))p" "$VF_J/plan")
+case "$code" in
+  T) kill -TERM $$ ;;
+  "") exit 0 ;;
+  *) exit "$code" ;;
+esac
+"""
+CODE_ENDS = ('0', '1', '3', 'T')
+
+
+def job_code(_arg):
+    """CheckoutTask (git clone, git checkout) and BuildTask (cmake configure, cmake --build with 0-3 targets) with a stand-in tool
+    whose n-th invocation ends as planned: DONE iff every invocation made exited 0, nothing is invoked after the first failure, a
+    tool that cannot be started gives FAILED, and the log holds what the invocations wrote, in order."""
+    from valjean.cosette.code import CheckoutTask, BuildTask
+    from valjean.cosette.depgraph import DepGraph
+    from valjean.cosette.scheduler import Scheduler
+    from valjean.cosette.backends.queue import QueueScheduling
+    from valjean.config import Config
+    rep = Report()
+    signal.signal(signal.SIGALRM, _alarm)
+    scratch = tempfile.mkdtemp(prefix='vf_c19c_')
+    tool = os.path.join(scratch, 'tool')
+    with open(tool, 'w', encoding='utf-8') as fil:
+        fil.write(TOOL)
+    os.chmod(tool, 0o755)
+    old = (CheckoutTask.GIT, BuildTask.CMAKE, os.environ.get('VF_J'))
+    cases = []
+    for plan in itertools.chain.from_iterable(itertools.product(CODE_ENDS, repeat=n) for n in (1, 2)):
+        cases.append(('checkout', None, plan, tool))
+    cases.append(('checkout', None, ('0', '0'), os.path.join(scratch, 'no-such-git')))
+    for targets in (None, ['a'], ['a', 'b'], ['a', 'b', 'c']):
+        for plan in itertools.chain.from_iterable(itertools.product(CODE_ENDS, repeat=n) for n in (1, 2, 3, 4)):
+            if len(plan) > 1 + max(1, len(targets or [])):
+                continue
+            cases.append(('build', targets, plan, tool))
+        cases.append(('build', targets, ('0',), os.path.join(scratch, 'no-such-cmake')))
+    try:
+        for kind, targets, plan, exe in cases:
+            root = tempfile.mkdtemp(prefix='code_', dir=scratch)
+            jdir = os.path.join(root, 'journal-dir')
+            os.makedirs(jdir)
+            os.makedirs(os.path.join(root, 'src'))
+            with open(os.path.join(jdir, 'plan'), 'w', encoding='ascii') as fil:
+                fil.write('\n'.join(plan) + '\n')
+            os.environ['VF_J'] = jdir
+            CheckoutTask.GIT = BuildTask.CMAKE = exe
+            if kind == 'checkout':
+                task = CheckoutTask('code', repository=os.path.join(root, 'src'))
+            else:
+                task = BuildTask('code', os.path.join(root, 'src'), targets=targets)
+            conf = Config()
+            conf.set('path', 'output-root', os.path.join(root, 'out'))
+            conf.set('path', 'log-root', os.path.join(root, 'log'))
+            graph = DepGraph()
+            graph.add_node(task)
+            case = {'code task': kind, 'targets': targets, 'exit plan of the tool': plan, 'tool exists': exe == tool}
+            tag = f'{kind}|targets={len(targets or [])}'
+            signal.alarm(60)
+            try:
+                env = Scheduler(hard_graph=graph, backend=QueueScheduling(n_workers=1)).schedule(config=conf)
+            except Watchdog:
+                rep.violate(f'C19|code|hang|{tag}', 'schedule() did not come back within 60 s', case)
+                continue
+            except Exception as exc:  # pylint: disable=broad-except
+                rep.violate(f'C19|code|run-aborted|{type(exc).__name__}|{tag}', f'schedule() raised {exc!r}', case)
+                continue
+            finally:
+                signal.alarm(0)
+            ent = env.get('code', {})
+            status = getattr(ent.get('status'), 'name', repr(ent.get('status')))
+            journal = []
+            if os.path.isfile(os.path.join(jdir, 'journal')):
+                with open(os.path.join(jdir, 'journal'), encoding='utf-8') as fil:
+                    journal = fil.read().splitlines()
+            ends = [(plan[i] if i < len(plan) else '0') for i in range(len(journal))]
+            failed_at = next((i for i, end in enumerate(ends) if end != '0'), None)
+            rep.case(nontrivial=(kind, tuple(targets or ()), plan, exe == tool) if (failed_at is not None or exe != tool) else None,
+                     outcome=('code', kind, status, len(journal)))
+            if exe != tool:
+                if status != 'FAILED' or journal:
+                    rep.violate(f'C19|code|missing-tool|{tag}', f'the tool does not exist: status {status}, invocations {journal}', case)
+                continue
+            if not journal:
+                rep.violate(f'C19|code|nothing-run|{tag}', f'no invocation of the tool was made (status {status})', case)
+                continue
+            exp = 'DONE' if failed_at is None else 'FAILED'
+            if status != exp:
+                rep.violate(f'C19|code|status|{tag}|exp={exp}|got={status}',
+                            f'{kind} targets={targets}: invocations ended {ends}, task is {status}', case)
+            if failed_at is not None and len(journal) > failed_at + 1:
+                rep.violate(f'C19|code|commands-run-after-failure|{tag}',
+                            f'{kind} targets={targets}: invocation {failed_at} ended {ends[failed_at]!r} but {len(journal) - failed_at - 1} more '
+                            f'were made: {journal[failed_at + 1:]}', case)
+            if failed_at is None:
+                # every requested target must have been asked for
+                asked = ' '.join(journal)
+                for tgt in targets or []:
+                    if f'--target {tgt}' not in asked:
+                        rep.violate(f'C19|code|target-not-built|{tag}', f'target {tgt!r} never requested: {journal}', case)
+            log = ent.get('checkout_log' if kind == 'checkout' else 'build_log')
+            if not log or not os.path.isfile(log):
+                rep.violate(f'C19|code|capture-missing|{tag}', f'no log file ({log!r})', case)
+            else:
+                with open(log, encoding='utf-8') as fil:
+                    lines = [ln for ln in fil.read().splitlines() if ln.startswith(('out', 'err'))]
+                for stream in ('out', 'err'):
+                    got = [ln for ln in lines if ln.startswith(stream)]
+                    if got != [f'{stream}{i}' for i in range(len(journal))]:
+                        rep.violate(f'C19|code|capture|{stream}|{tag}', f'log holds {got}, the invocations wrote '
+                                    f'{[f"{stream}{i}" for i in range(len(journal))]}', case)
+            shutil.rmtree(root, ignore_errors=True)
+        rep.sample({'code task': 'build', 'targets': ['a', 'b'], 'exit plan of the tool': ('0', '3', '0')})
+    finally:
+        CheckoutTask.GIT, BuildTask.CMAKE = old[0], old[1]
+        if old[2] is None:
+            os.environ.pop('VF_J', None)
+        else:
+            os.environ['VF_J'] = old[2]
+        shutil.rmtree(scratch, ignore_errors=True)
+    return rep
+
+
 def _call(job):
     return job[0](job[1])
 
@@ -227,7 +358,7 @@ TIER = ['quick']
 
 def run(tier, seed):
     TIER[0] = tier
-    jobs = [(job_lists, None)] + [(job_lists, k) for k in KINDS] + [(job_names, None)]
+    jobs = [(job_lists, None)] + [(job_lists, k) for k in KINDS] + [(job_names, None), (job_code, None)]
     return pool.pmap(_call, jobs, seed)
 
 
